@@ -365,6 +365,18 @@ def mon_hist(r, pid):
                         want_acks = [bh[3] for bh in behs]
                         if not a2 or a2[0][2] != want_acks:
                             return "step %d: v2 acknowledgement %s is not one app acknowledgement per payload in order %s" % (i, a2, want_acks)
+        # C11: an asynchronously acknowledged v2 packet stays retrievable until its acknowledgement is written, and is
+        # removed afterwards
+        if pid == "C11" and prev_proj[ci] is not None:
+            prev_as = {(x[0], x[1]) for x in prev_proj[ci]["as2"]}
+            now_as = {(x[0], x[1]) for x in pj["as2"]}
+            acked2 = {(x[0], x[1]) for x in pj["a2"]}
+            gone = sorted(prev_as - now_as - acked2)
+            if gone:
+                return "step %d: the stored asynchronous packet %s was removed although its acknowledgement has not been written" % (i, gone[0])
+            kept = sorted(now_as & acked2)
+            if kept:
+                return "step %d: the asynchronous packet %s is still stored after its acknowledgement was written" % (i, kept[0])
         # C11: acknowledgements never change or disappear
         if pid == "C11":
             for x in pj["a1"]:
